@@ -9,7 +9,7 @@ CONSTANTS NNL, NLIN, Methods, Emit
 VARIABLES sc, phase
 Kinds == {"eq", "lower", "upper", "two", "none"}
 Init == /\ \E nk \in [1..NNL -> Kinds] : \E lk \in [1..NLIN -> Kinds] : \E m \in Methods :
-           \E mask \in {"none", "fix2"} : \E opt \in {"None", "empty", "dict"} : \E mi \in {0, 7} :
+           \E mask \in {"none", "fix2", "fix23"} : \E opt \in {"None", "empty", "dict"} : \E mi \in {0, 7} :
            \E vb \in {"mixed", "onesided"} : \E narrow \in BOOLEAN :
              /\ (narrow => NNL >= 1 /\ nk[1] = "two" /\ vb = "mixed")     \* the first non-linear constraint is a very narrow two-sided band
              /\ (vb = "onesided" => opt = "None" /\ mi = 0)
